@@ -1479,6 +1479,12 @@ static void gen(const char *prop, RunSpec &spec)
 			p.add(0, K_S_REF, r.chance(1, 2) ? T_CREATED : T_MSG, conn, r.range(0, 4), r.range(1, 40));
 		} else p.add(0, K_S_STATS, T_TICK, -1, r.range(1, 30));
 	}
+	if (w == 4 && nc >= 2 && r.chance(1, 4)) {
+		// C04: one of the clients is turned away by the accept callback (its connection object lives and dies without ever
+		// being listed), the others go through their histories as usual
+		static const int64_t ERRS4[] = { EACCES, EPERM, EAGAIN };
+		p.add(0, K_S_ACCEPT_POLICY, T_TICK, -1, 0, r.below((uint64_t)nc), ERRS4[r.below(3)], -1);
+	}
 	if (w == 5) {
 		for (int k = 0; k < nc; k++) if (r.chance(1, 4)) {
 			char key[24];
